@@ -302,6 +302,143 @@ Section Dot.
     else if written <? cap then KTail
     else KOk (mkCSR (map snd out) (map fst out) (0 :: ptr)).
 
+  (* ------------------------------------------------------------------ the dense-result kernels *)
+  (*  out[i, j] += v  *)
+  Definition upd_add (o : dense2) (i j : Z) (v : V) : dense2 := upd2 o i j (vadd (o i j) v).
+
+  (* _dot_csr_ndarray:  for i in range(n_row): for k in range(a_indptr[i], a_indptr[i+1]):
+         ind = a_indices[k]; v = a_data[k]; for j in range(n_col): out[i, j] += v * b[ind, j]
+     (on a well-formed operand `range(a_indptr[i], a_indptr[i+1])` enumerates row_pairs a i) *)
+  Definition dot_csr_ndarray (n_row n_col : Z) (a : csr) (b : dense2) : dense2 :=
+    fold_left (fun out i =>
+      fold_left (fun out kv =>
+        fold_left (fun out j => upd_add out i j (vmul (snd kv) (b (fst kv) j))) (zrange n_col) out)
+        (row_pairs a i) out)
+      (zrange n_row) (fun _ _ => vzero).
+
+  (* _dot_csc_ndarray (a: CSC triple of the left operand, n_in columns):
+       for i in range(n_in): for k in range(a_indptr[i], a_indptr[i+1]):
+         ind = a_indices[k]; v = a_data[k]; for j in range(p): out[ind, j] += v * b[i, j] *)
+  Definition dot_csc_ndarray (n_in p : Z) (a : csr) (b : dense2) : dense2 :=
+    fold_left (fun out i =>
+      fold_left (fun out kv =>
+        fold_left (fun out j => upd_add out (fst kv) j (vmul (snd kv) (b i j))) (zrange p) out)
+        (row_pairs a i) out)
+      (zrange n_in) (fun _ _ => vzero).
+
+  (* _dot_ndarray_coo (array1 dense, the COO operand as cells (coords2[0], coords2[1], data2)):
+       for oidx1 in range(m): for didx2 in range(len(data2)):
+         out[oidx1, coords2[1, didx2]] += array1[oidx1, coords2[0, didx2]] * data2[didx2] *)
+  Definition dot_ndarray_coo (m : Z) (array1 : dense2) (rows2 cols2 : list Z) (data2 : list V) : dense2 :=
+    fold_left (fun out i =>
+      fold_left (fun out (t : Z * Z * V) =>
+        upd_add out i (snd (fst t)) (vmul (array1 i (fst (fst t))) (snd t)))
+        (combine (combine rows2 cols2) data2) out)
+      (zrange m) (fun _ _ => vzero).
+
+  (* ------------------------------------------------------------------ _dot_csr_ndarray_sparse *)
+  (* _csr_ndarray_count_nnz: per (i, j), one more cell if some b[k, j] != 0 for k in the row
+     (`nnz += 1; break`); indptr[i + 1] = nnz.  Returns (nnz, indptr[1:]). *)
+  Definition csr_ndarray_count_nnz (n_row n_col : Z) (a_indices a_indptr : list Z) (b : dense2) : Z * list Z :=
+    fold_left (fun (st : Z * list Z) i =>
+      let '(nnz, ptr) := st in
+      let cur_row := row_cols a_indices a_indptr i in
+      let nnz' :=
+        fold_left (fun nnz j => if existsb (fun k => negb (veqb (b k j) vzero)) cur_row then nnz + 1 else nnz)
+                  (zrange n_col) nnz in
+      (nnz', ptr ++ [nnz']))
+      (zrange n_row) (0, []).
+
+  (*  val = 0; nonzero = False
+      for k in range(a_indptr[i], a_indptr[i+1]): val += v * b[ind, j]; if b[ind, j] != 0: nonzero = True *)
+  Definition csr_nd_cell (a : csr) (b : dense2) (i j : Z) : V * bool :=
+    fold_left (fun (st : V * bool) kv =>
+                 (vadd (fst st) (vmul (snd kv) (b (fst kv) j)), snd st || negb (veqb (b (fst kv) j) vzero)))
+              (row_pairs a i) (vzero, false).
+
+  (*  if nonzero: data[current] = val; indices[current] = j; current += 1  *)
+  Definition csr_nd_row (a : csr) (b : dense2) (n_col : Z) (i : Z) : list (Z * V) :=
+    flat_map (fun j => let '(val, nz) := csr_nd_cell a b i j in if nz then [(j, val)] else []) (zrange n_col).
+
+  Definition dot_csr_ndarray_sparse (n_row n_col : Z) (a : csr) (b : dense2) : kres csr :=
+    let '(cap, ptr) := csr_ndarray_count_nnz n_row n_col (m_indices a) (m_indptr a) b in
+    let out := flat_map (csr_nd_row a b n_col) (zrange n_row) in
+    let written := Z.of_nat (length out) in
+    if cap <? written then KOob
+    else if written <? cap then KTail
+    else KOk (mkCSR (map snd out) (map fst out) (0 :: ptr)).
+
+  (* ------------------------------------------------------------------ _dot_coo_ndarray_type_sparse *)
+  (* innermost `while cur_didx1 < len(data1) and coords1[0, cur_didx1] == current_row:
+        data_curr += data1[cur_didx1] * array2[oidx2, coords1[1, cur_didx1]]; cur_didx1 += 1`
+     (structural: at most n - didx1 steps) *)
+  Fixpoint scan_sum (m : nat) (rows cols : list Z) (data : list V) (array2 : dense2)
+           (row oidx2 : Z) (cur : Z) (acc : V) : Z * V :=
+    match m with
+    | O => (cur, acc)
+    | S m' =>
+      if (cur <? Z.of_nat (length data)) && (znth rows cur 0 =? row) then
+        scan_sum m' rows cols data array2 row oidx2 (cur + 1)
+                 (vadd acc (vmul (znth data cur vzero) (array2 oidx2 (znth cols cur 0))))
+      else (cur, acc)
+    end.
+
+  (*  oidx2 = 0; while oidx2 < out_shape[1]: cur_didx1 = didx1; data_curr = 0; <inner while>;
+        if data_curr != 0: out_data.append(data_curr); out_coords.append((current_row, oidx2)); oidx2 += 1  *)
+  Definition cns_for (rows cols : list Z) (data : list V) (array2 : dense2) (out_cols : Z)
+             (row didx1 : Z) (cur : Z) (out : list (Z * Z * V)) : Z * list (Z * Z * V) :=
+    fold_left (fun (st : Z * list (Z * Z * V)) oidx2 =>
+                 let '(cur', dc) := scan_sum (Z.to_nat (Z.of_nat (length data) - didx1)) rows cols data array2
+                                             row oidx2 didx1 vzero in
+                 (cur', if negb (veqb dc vzero) then snd st ++ [(row, oidx2, dc)] else snd st))
+              (zrange out_cols) (cur, out).
+
+  (* outer `while didx1 < len(data1) and out_shape[1] > 0` on fuel *)
+  Fixpoint cns_while (fuel : nat) (rows cols : list Z) (data : list V) (array2 : dense2) (out_cols : Z)
+           (didx1 : Z) (out : list (Z * Z * V)) : kres (list (Z * Z * V)) :=
+    if (didx1 <? Z.of_nat (length data)) && (0 <? out_cols) then
+      match fuel with
+      | O => KFuel
+      | S f =>
+        let row := znth rows didx1 0 in
+        let '(cur, out') := cns_for rows cols data array2 out_cols row didx1 didx1 out in
+        cns_while f rows cols data array2 out_cols cur out'
+      end
+    else KOk out.
+
+  (* the cells (row, column, value) appended to out_coords / out_data, in order *)
+  Definition dot_coo_ndarray_sparse (fuel : nat) (rows cols : list Z) (data : list V) (array2 : dense2)
+             (out_cols : Z) : kres (list (Z * Z * V)) :=
+    cns_while fuel rows cols data array2 out_cols 0 [].
+
+  (* ------------------------------------------------------------------ _dot_ndarray_coo_type_sparse *)
+  (* the COO operand is b.T: cells (coords2[0] = column of b, sorted; coords2[1] = row of b; data2).
+       for oidx1 in range(m):
+         data_curr = 0; current_col = 0
+         for didx2 in range(len(data2)):
+           if coords2[0, didx2] != current_col:
+             if data_curr != 0: append(data_curr, [oidx1, current_col]); data_curr = 0
+             current_col = coords2[0, didx2]
+           data_curr += array1[oidx1, coords2[1, didx2]] * data2[didx2]
+         if data_curr != 0: append(data_curr, [oidx1, current_col]) *)
+  Definition ncs_step (array1 : dense2) (oidx1 : Z) (st : V * Z * list (Z * Z * V)) (t : Z * Z * V)
+    : V * Z * list (Z * Z * V) :=
+    let '(dc, cc, out) := st in
+    let c := fst (fst t) in
+    let '(dc1, cc1, out1) :=
+      if negb (c =? cc) then
+        (if negb (veqb dc vzero) then (vzero, c, out ++ [(oidx1, cc, dc)]) else (dc, c, out))
+      else (dc, cc, out) in
+    (vadd dc1 (vmul (array1 oidx1 (snd (fst t))) (snd t)), cc1, out1).
+
+  Definition dot_ndarray_coo_sparse (m : Z) (array1 : dense2) (cols2 rows2 : list Z) (data2 : list V)
+    : list (Z * Z * V) :=
+    fold_left (fun out oidx1 =>
+                 let '(dc, cc, out') :=
+                   fold_left (ncs_step array1 oidx1) (combine (combine cols2 rows2) data2) (vzero, 0, out) in
+                 if negb (veqb dc vzero) then out' ++ [(oidx1, cc, dc)] else out')
+              (zrange m) [].
+
   (* row-major table of a dense2 *)
   Definition tab2 (n_row n_col : Z) (o : dense2) : list V :=
     flat_map (fun i => map (fun j => o i j) (zrange n_col)) (zrange n_row).
@@ -503,3 +640,43 @@ Definition matmul_route (a_ndim b_ndim a_lead b_lead : Z) : option matmul_strate
   | Ok (VInt 1) => Some MmDot | Ok (VInt 2) => Some MmDotMoveAxis | Ok (VInt 3) => Some MmSqueezeA
   | Ok (VInt 4) => Some MmSqueezeB | Ok (VInt 5) => Some MmBatch | _ => None
   end.
+
+(* ---------------------------------------------------------------------- _einsum_single *)
+(* one sparse operand, labels as integers.  `where`: for every label (first-occurrence order) its positions;
+   an entry is selected when, for every label occurring more than once, the coordinates at the later positions
+   equal the coordinate at the first (`(coords[loc0] == coords[rlocs]).all(axis=0)`); the kept coordinates are
+   permuted/projected by perm = [lhs.index(ix) for ix in rhs]; the COO constructor is told
+   has_duplicates=True, i.e. coinciding coordinates are SUMMED (den_sum). *)
+Section EinsumSingle.
+  Variable V : Type.
+  Variable vzero : V.
+  Variable vadd : V -> V -> V.
+
+  Fixpoint first_labels (l : list Z) (seen : list Z) : list Z :=
+    match l with
+    | [] => []
+    | x :: r => if mem_z x seen then first_labels r seen else x :: first_labels r (x :: seen)
+    end.
+  Definition positions_of (lhs : list Z) (lab : Z) : list nat :=
+    filter (fun p => nth p lhs 0 =? lab) (seq 0 (length lhs)).
+  Definition where_groups (lhs : list Z) : list (list nat) := map (positions_of lhs) (first_labels lhs []).
+
+  Definition es_selector (lhs : list Z) (ix : idx) : bool :=
+    forallb (fun locs => match locs with
+                         | [] => true
+                         | loc0 :: rlocs => forallb (fun q => nth loc0 ix 0 =? nth q ix 0) rlocs
+                         end) (where_groups lhs).
+
+  (* "Repeated indices must have the same dimension." *)
+  Definition es_shape_ok (lhs : list Z) (sh : shape) : bool := es_selector lhs sh.
+
+  Definition einsum_single_m (lhs rhs : list Z) (c : coo V) : res (coo V) :=
+    if negb (es_shape_ok lhs (c_shape c)) then Raise ValueError
+    else
+      let kept := filter (fun e => es_selector lhs (fst e)) (entries c) in
+      Ok (mkCOO (es_proj lhs rhs (c_shape c)) (map (fun e => es_proj lhs rhs (fst e)) kept) (map snd kept) (c_fill c)).
+
+  (* meaning of a COO whose coinciding coordinates are summed (has_duplicates=True) *)
+  Definition den_sum (c : coo V) (o : idx) : V :=
+    vsum V vzero vadd (map snd (filter (fun e => idx_eqb (fst e) o) (entries c))).
+End EinsumSingle.
